@@ -1,3 +1,4 @@
+import Varint.Lemmas.BitmapIter
 import Varint.Lemmas.Bitmap
 /-
   C08 — the bitmap behaves as a set of 16-bit integers under any history.
@@ -198,6 +199,34 @@ theorem bitmap_andnot_spec (a b : St) (ha : Inv a) :
   simp only [Nat.testBit_xor, Nat.testBit_and]
   simp only [init, Nat.zero_testBit, Bool.false_or]
   cases a.bits.testBit w <;> cases b.bits.testBit w <;> rfl
+
+
+/-! ## iteration order, export size, add-range, serialisation -/
+
+/-- iteration / array export is strictly ascending (hence duplicate free) — for EVERY state -/
+theorem bitmap_iteration_ascending (s : St) : List.Pairwise (· < ·) (members s) ∧ (members s).Nodup :=
+  ⟨members_sorted s, members_nodup s⟩
+
+/-- the exported array has exactly `cardinality` entries -/
+theorem bitmap_export_length (s : St) (hi : Inv s) : (members s).length = s.card :=
+  members_length s hi
+
+/-- add-range (half-open), both the element-wise path and the single-run fast path on an empty bitmap -/
+theorem bitmap_addRange_spec (s : St) (mn mx : Nat) (hmx : mx ≤ 65536) (hi : Inv s) :
+    Inv (addRange s mn mx) ∧
+    ∀ w, (addRange s mn mx).bits.testBit w = (s.bits.testBit w || (decide (mn ≤ w) && decide (w < mx))) :=
+  addRange_spec s mn mx hmx hi
+
+/-- serialise then deserialise (the decoder of C14's model, `Bounded.bitmapDec`, mapped back to a state)
+    restores type, counter and member set — array and bitmap containers, and the single run that the
+    add-range fast path creates (its length is a uint16_t in the C, so < 65536) -/
+theorem bitmap_serialise_roundtrip (s : St) (hi : Inv s) (hty : s.ty ≠ .runs) : decodeSt (encode s) = some s :=
+  decode_encode s hi hty
+
+theorem bitmap_serialise_roundtrip_run (s : St) (mn mx : Nat) (hi : Inv s) (hc : s.card = 0)
+    (hbig : mx - mn > arrayMax) (hmx : mx ≤ 65536) (hnf : mx - mn < 65536) :
+    decodeSt (encode (addRange s mn mx)) = some (addRange s mn mx) :=
+  decode_encode_addRange_fast s mn mx hi hc hbig hmx hnf
 
 /-- non-vacuity: a short history through the model -/
 example : (run init [.add 7, .add 7, .remove 7, .remove 8]).2 = [some true, some false, some true, some false] := by
